@@ -1,7 +1,8 @@
 """C03 -- acknowledged mode recovers from bounded loss, duplication and reordering (H-SYS)."""
 from __future__ import annotations
 
-from spacepackets.cfdp import ChecksumType
+from cfdppy.mib import FaultHandlerCode
+from spacepackets.cfdp import ChecksumType, ConditionCode
 
 from vf import hsys, rigs, symex
 from vf.explore import Spec
@@ -10,14 +11,17 @@ from vf.rigs import ACK
 from vf.world import World
 
 
-def harness(ctx, M, K, rounds=None, swap=True, limits=None, kinds=None):
+def harness(ctx, M, K, rounds=None, swap=True, limits=None, kinds=None, strict=False):
     w = World(ctx, injective=True, nonzero_source=True)
     x = ctx.int("x", 0, 2**16)
     w.witness = x
     faults = list(kinds) if kinds else ["deliver", "drop", "dup"] + (["swap"] if swap else [])
     sysm, cfg = c02.setup(ctx, w, M, 2, 2, K=K, modes=(ACK,), cktypes=[ChecksumType.CRC_32],
                           limits=(K + 1) if limits is None else limits, shapes=("file",), faults=faults,
-                          fixed={"crc": False, "use_L": False})
+                          fixed={"crc": False, "use_L": False},
+                          # strict: every fault condition cancels the transaction (also File Checksum Failure,
+                          # which the library ignores by default) - a fault declared without need is fatal
+                          fault_table={c: FaultHandlerCode.NOTICE_OF_CANCELLATION for c in STRICT} if strict else None)
     o = sysm.start()
     ctx.prop("put_accepted", o.exc is None and o.ret is True)
     R = rounds or (14 + 10 * K + 2 * M)
@@ -28,6 +32,10 @@ def harness(ctx, M, K, rounds=None, swap=True, limits=None, kinds=None):
         # slow but converging? give it ten times as long before calling it stuck
         done = sysm.run(10 * R)
     c02.success_oracle(ctx, w, sysm, cfg, x, done)
+
+
+STRICT = [ConditionCode.FILE_CHECKSUM_FAILURE, ConditionCode.FILE_SIZE_ERROR, ConditionCode.NAK_LIMIT_REACHED,
+          ConditionCode.POSITIVE_ACK_LIMIT_REACHED, ConditionCode.CHECK_LIMIT_REACHED, ConditionCode.FILESTORE_REJECTION]
 
 
 def plan(tier):
@@ -43,6 +51,8 @@ def plan(tier):
     specs.append(Spec("recover/loss+reorder-by-two/M=3/K=2", "vf.harness.c03:harness",
                       {"M": 3, "K": 2, "kinds": ["deliver", "drop", "swap2"]}, twin_share=0.02,
                       obligations=["faults_used=2"]))
+    specs.append(Spec("recover/strict-fault-table/M=2/K=1", "vf.harness.c03:harness",
+                      {"M": 2, "K": 1, "strict": True}, twin_share=0.02, obligations=["faults_used=1"]))
     if tier != "quick":
         specs.append(Spec("recover/all-kinds/M=3/K=2", "vf.harness.c03:harness",
                           {"M": 3, "K": 2, "kinds": ["deliver", "drop", "dup", "swap", "swap2"]}, twin_share=0.02))
@@ -50,7 +60,7 @@ def plan(tier):
 
 
 BOUNDS = {
-    "quick": "acknowledged mode, immediate and deferred NAK, closure on/off, CRC-32, widths (2,2); file of at most M segments with symbolic size and max packet length; every transmission in either direction gets a solver-forked fault (deliver / drop / duplicate / hold back behind the next PDU; plus a run with drop / hold back behind the next TWO PDUs on three segments) and every round with PDUs in flight a possible timer expiry (delay fault) while the budget K lasts; all expiration limits = K+1; (M,K) = (2,1), (1,2), (2,2); after the budget the link is reliable and the clock advances whenever the system is quiescent; a run still busy after 14+10K+2M rounds is given ten times as long before it counts as stuck",
+    "quick": "acknowledged mode, immediate and deferred NAK, closure on/off, CRC-32, widths (2,2); file of at most M segments with symbolic size and max packet length; every transmission in either direction gets a solver-forked fault (deliver / drop / duplicate / hold back behind the next PDU; plus a run with drop / hold back behind the next TWO PDUs on three segments) and every round with PDUs in flight a possible timer expiry (delay fault) while the budget K lasts; all expiration limits = K+1; (M,K) = (2,1), (1,2), (2,2), and (2,1) with a fault-handler table in which every condition (incl. File Checksum Failure) cancels the transaction; after the budget the link is reliable and the clock advances whenever the system is quiescent; a run still busy after 14+10K+2M rounds is given ten times as long before it counts as stuck",
     "thorough": "(M,K) = (2,1), (2,2), (3,2), (1,3)",
 }
 OUTSIDE = "more than K faults, more than M segments, reordering deeper than two positions per fault, corruption (C01), unacknowledged mode"
